@@ -48,6 +48,7 @@ class SimGateway:
         self.unacked_srv: dict[tuple[int, int], Any] = {}
         self.srv_acks: list[tuple[float, int, int, int]] = []
         self.down = False
+        self.last_cid = None
         self.max_channels = int(self.script.get("max_channels", 8))
 
     # ---------------------------------------------------------------- plumbing
@@ -159,6 +160,7 @@ class SimGateway:
         self.next_cid = cid % 255 + 1
         ch = Channel(cid, ctrl, data_ep, via, mgmt)
         self.channels[cid] = ch
+        self.last_cid = cid
         rec["channel"] = cid
         resp = W.connect_response(cid, 0, W.hpai(self.ip, self.port, tcp=via[0] == "tcp"),
                                   ind_addr=self.ind_addr, mgmt=mgmt)
@@ -292,9 +294,7 @@ class SimGateway:
     def server_disconnect(self, cid: int | None = None, wire_cid: int | None = None, forget: bool = True):
         """Send a DisconnectRequest for channel `cid` (default: the newest one)."""
         if cid is None:
-            if not self.channels:
-                return None
-            cid = sorted(self.channels)[-1]
+            cid = self.last_cid
         ch = self.channels.get(cid)
         if ch is None:
             return None
